@@ -208,7 +208,7 @@ PARTS = {
                                  | {("replaced" if e["op"]["o"] in ("response_in",) and i > 0 and any(r[0] in {x[0] for x in events[i - 1]["obs"]["table"]} and r[1] not in {x[1] for x in events[i - 1]["obs"]["table"]} for r in e["obs"]["table"]) else "") for i, e in enumerate(events)}
                                  | {("removed" if i > 0 and len(e["obs"]["table"]) < len(events[i - 1]["obs"]["table"]) and e["op"]["o"] != "reset" else "") for i, e in enumerate(events)}]),
     # lookups of the running service (callback, requests emitted, result) - the service-level clauses of C09 and C10
-    "svc_lookup": _svc_common({"C09.CallbackTwice": "C09", "C09.NoCallback": "C09", "C09.SamePeerTwice": "C09", "C09.InFlight": "C09", "C09.ResultLost": "C09",
+    "svc_lookup": _svc_common({"C09.CallbackTwice": "C09", "C09.Overdue": "C09", "C09.NoCallback": "C09", "C09.SamePeerTwice": "C09", "C09.InFlight": "C09", "C09.ResultLost": "C09",
                                "C10.Duplicate": "C10", "C10.TooMany": "C10", "C10.Order": "C10", "C10.PredicateMismatch": "C10",
                                "C10.NotAnswered": "C10", "C10.Incomplete": "C10"},
         spec="MC_Lookup.tla", mc={"quick": [], "thorough": []},
